@@ -20,7 +20,7 @@ StrArg(s) == [tya |-> "String", arg |-> s]
 ExtsArg(es) == [tya |-> "Extensions", es |-> es]
 SeqArg(es) == [tya |-> "Sequence", elems |-> es]
 VarArg(i, p) == [tya |-> "Variable", idx |-> i, cached_decl |-> p]
-PlainArgs == {NatArg(0), NatArg(5), StrArg("s"), StrArg(""), ExtsArg(<<>>), ExtsArg(<<"e1">>), VarArg(0, ParamNat(7)), VarArg(1, ParamType("A"))}
+PlainArgs == {NatArg(0), NatArg(5), StrArg("s"), StrArg(""), StrArg(" lead"), StrArg("trail \n"), ExtsArg(<<>>), ExtsArg(<<"e1">>), VarArg(0, ParamNat(7)), VarArg(1, ParamType("A"))}
 
 (* ---- types ---- *)
 Var(i, b)   == [t |-> "V", i |-> i, b |-> b]
@@ -32,7 +32,7 @@ Explicit(b) == [b |-> "Explicit", bound |-> b]
 FromParams(ix) == [b |-> "FromParams", indices |-> ix]
 
 Base == {QubitT, USizeT, BoolT, UnitT, UnitSumT(0), UnitSumT(3), Var(0, "C"), Var(1, "A"), RowVar(0, "A"), RowVar(1, "C"),
-         AliasT("al", "A"), AliasT("ac", "C"), OpaqueT("e1", "Lin", <<>>, "A"), OpaqueT("e1", "Cpy", <<>>, "C")}
+         AliasT("al", "A"), AliasT("ac", "C"), AliasT(" a b ", "C"), OpaqueT(" e ", "Id ", <<StrArg("\tx ")>>, "C"), OpaqueT("e1", "Lin", <<>>, "A"), OpaqueT("e1", "Cpy", <<>>, "C")}
 (* elements used inside compound types: one per bound-relevant class *)
 Elems == {QubitT, BoolT, Var(1, "A"), Var(1, "C"), OpaqueT("e1", "Cpy", <<>>, "C"), OpaqueT("e1", "Cpy", <<>>, "A"), USizeT}
    \* Var(1,C)/Var(1,A) and the two opaque "Cpy" print alike but differ in bound: any caching keyed on display form shows up
